@@ -202,6 +202,8 @@ class Explorer:
             acts.append(("sweep", None))
         if b["restart"] > 0 and nonq:
             acts.append(("restart", None))
+            if self.late_restart and self.trust_negative:
+                acts.append(("restart-foreign", None))  # ... in a process whose filter another store's processor hydrated first
         if b["rotate"] > 0 and nonq:
             acts.append(("rotate", None))  # reset + re-hydrate (the processor's own rotation path)
             if self.trust_negative:
@@ -282,14 +284,14 @@ class Explorer:
         elif kind == "sweep":
             b["sweep"] -= 1
             w.run_recovery()
-        elif kind == "restart":
+        elif kind in ("restart", "restart-foreign"):
             b["restart"] -= 1
             if self.late_restart:
                 # the worker stayed down for days: every processed record written so far is now old (nothing
                 # deletes them - the retention sweep is a separate, explicit action)
                 w.conn.execute("UPDATE processed_messages SET processed_at = datetime(processed_at, '-3 days')")
                 w.conn.commit()
-            w.incarnate(trust_negative=self.trust_negative)
+            w.incarnate(trust_negative=self.trust_negative, foreign_first=(kind == "restart-foreign"))
         elif kind == "rotate":
             b["rotate"] -= 1
             from stabilize.queue.dedup import get_deduplicator
